@@ -323,3 +323,113 @@ Example af_formula_refuted : exists rho, let a := EId "eax" 32 true false in let
   eval rho (fun _ => 0) (fun _ _ => 0) (ECond (e_and (alu_val Add a b) (int_from (alu_val Add a b) 16)) (i1 1) (i1 0)) = 1 /\
   (rho "eax" mod 16 + rho "ebx" mod 16) / 16 = 0.
 Proof. exists (fun n => if (n =? "eax")%string then 16 else 0). vm_compute. split; reflexivity. Qed.
+
+(** * inc / dec / neg as instances *)
+Lemma is_mirror_u_sound k l : is_mirror_u k l = true ->
+  exists a, operand_ok a = true /\ (size a = 8 \/ size a = 16 \/ size a = 32) /\
+            forall rho mu iota, map (eval rho mu iota) l = map (eval rho mu iota) (mirror_u k a).
+Proof.
+  unfold is_mirror_u. destruct (operand_of_u k l) as [a|]; [|discriminate]. intros H.
+  apply andb_true_iff in H as [H L]. apply andb_true_iff in H as [A W].
+  exists a. split; [exact A|]. split.
+  - apply orb_true_iff in W as [W|W]; [apply orb_true_iff in W as [W|W]|]; apply Z.eqb_eq in W; auto.
+  - intros. apply list_expr_eqb_eval. assumption.
+Qed.
+
+Section Una.
+  Variable rho : string -> Z.
+  Variable mu : Z -> Z.
+  Variable iota : string -> list Z -> Z.
+  Notation ev := (eval rho mu iota).
+  Variable a : expr.
+  Hypothesis Oa : operand_ok a = true.
+  Hypothesis Wa : size a = 8 \/ size a = 16 \/ size a = 32.
+  Let n := size a.
+  Let x := ev a.
+
+  Lemma const_ok k : operand_ok (una_const k a) = true /\ size (una_const k a) = n.
+  Proof. destruct k; simpl; (split; [apply Z.ltb_lt; fold n; unfold n; lia | reflexivity]). Qed.
+  Lemma pow_n_big : 2 < 2 ^ n.
+  Proof. unfold n. destruct Wa as [-> |[-> | ->]]; reflexivity. Qed.
+
+  Theorem inc_correct : let c := alu_val Add a (una_const Inc a) in
+    ev c = (x + 1) mod 2 ^ n /\ ev (add_of_src a (una_const Inc a) c) = Z.b2z (of_add n x 1 0).
+  Proof.
+    destruct (const_ok Inc) as [Ob Sb]. intros c.
+    destruct (add_flags rho mu iota a (una_const Inc a) Oa Ob (eq_sym Sb) Add 0 (or_introl (conj eq_refl eq_refl))) as (V & _ & O).
+    assert (E1 : ev (una_const Inc a) = 1) by (simpl; fold n; apply Z.mod_small; pose proof pow_n_big; lia).
+    fold n x in V, O. rewrite E1 in V, O. subst c. split; [rewrite V; f_equal; lia | exact O].
+  Qed.
+  Theorem dec_correct : let c := alu_val Add a (una_const Dec a) in
+    ev c = (x - 1) mod 2 ^ n /\ ev (add_of_src a (una_const Dec a) c) = Z.b2z (of_sub n x 1 0).
+  Proof.
+    destruct (const_ok Dec) as [Ob Sb]. intros c. pose proof pow_n_big as Pn.
+    destruct (add_flags rho mu iota a (una_const Dec a) Oa Ob (eq_sym Sb) Add 0 (or_introl (conj eq_refl eq_refl))) as (V & _ & O).
+    assert (E1 : ev (una_const Dec a) = 2 ^ n - 1) by (simpl; fold n; apply Z.mod_small; lia).
+    fold n x in V, O. rewrite E1 in V, O. subst c. split.
+    - rewrite V. replace (x + (2 ^ n - 1) + 0) with ((x - 1) + 1 * 2 ^ n) by lia. apply Z.mod_add. lia.
+    - rewrite O. f_equal. unfold of_add, of_sub, sgnv.
+      assert (Hn : 0 < n) by (unfold n; destruct Wa as [-> |[-> | ->]]; lia). destruct (pow_split n Hn) as [E P].
+      replace (2 ^ (n - 1) <=? 2 ^ n - 1) with true by (symmetry; apply Z.leb_le; lia).
+      replace (2 ^ (n - 1) <=? 1) with false by (symmetry; apply Z.leb_gt; unfold n; destruct Wa as [-> |[-> | ->]]; reflexivity).
+      replace (2 ^ n - 1 - 2 ^ n) with (-1) by lia. reflexivity.
+  Qed.
+  Theorem neg_correct : let c := alu_val Sub (una_const Neg a) a in
+    ev c = (- x) mod 2 ^ n /\ ev (sub_cf_src (una_const Neg a) a c) = Z.b2z (negb (x =? 0)) /\ ev (sub_of_src (una_const Neg a) a c) = Z.b2z (of_sub n 0 x 0).
+  Proof.
+    destruct (const_ok Neg) as [Ob Sb]. intros c.
+    destruct (sub_flags rho mu iota (una_const Neg a) a Ob Oa Sb Sub 0 (or_introl (conj (or_introl eq_refl) eq_refl))) as (V & C & O).
+    assert (E0 : ev (una_const Neg a) = 0) by (simpl; apply Z.mod_0_l; pose proof pow_n_big as Pn; unfold n in Pn; lia).
+    change (size (una_const Neg a)) with n in V, C, O. fold x in V, C, O. rewrite E0 in V, C, O. subst c.
+    split; [rewrite V; f_equal; lia|]. split; [|exact O].
+    rewrite C. f_equal. unfold cf_sub.
+    assert (R : 0 <= x) by (destruct (operand_range rho mu iota a Oa) as [_ [R _]]; exact R).
+    destruct (x =? 0) eqn:Z0; [apply Z.eqb_eq in Z0; rewrite Z0; reflexivity | apply Z.eqb_neq in Z0; apply Z.ltb_lt; lia].
+  Qed.
+End Una.
+
+(** * The destination write-back: assigning to a sub-register replaces exactly its bits *)
+Section WriteBack.
+  Variable rho : string -> Z.
+  Variable mu : Z -> Z.
+  Variable iota : string -> list Z -> Z.
+  Notation ev := (eval rho mu iota).
+
+  Lemma testbit_slot w x off i : 0 <= w -> 0 <= off -> 0 <= i ->
+    Z.testbit (Z.shiftl (wrap w x) off) i = (off <=? i) && (i <? off + w) && Z.testbit x (i - off).
+  Proof.
+    intros Hw Ho Hi. destruct (Z_lt_le_dec i off) as [L|L].
+    - rewrite Z.shiftl_spec_low by lia. replace (off <=? i) with false by (symmetry; apply Z.leb_gt; lia). reflexivity.
+    - rewrite Z.shiftl_spec by lia. replace (off <=? i) with true by (symmetry; apply Z.leb_le; lia). cbn [andb].
+      unfold wrap. destruct (Z_lt_le_dec (i - off) w) as [M|M].
+      + rewrite Z.mod_pow2_bits_low by lia. replace (i <? off + w) with true by (symmetry; apply Z.ltb_lt; lia). reflexivity.
+      + rewrite Z.mod_pow2_bits_high by lia. replace (i <? off + w) with false by (symmetry; apply Z.ltb_ge; lia). reflexivity.
+  Qed.
+
+  Theorem mk_aff_slice_bits nm w rg tm lo hi src : 0 <= lo -> lo < hi -> hi <= w ->
+    match mk_aff (ESlice (EId nm w rg tm) lo hi) src with
+    | EAff d s => d = EId nm w rg tm /\
+        forall i, 0 <= i ->
+          Z.testbit (ev s) i = if (lo <=? i) && (i <? hi) then Z.testbit (ev src) (i - lo)
+                               else (i <? w) && Z.testbit (rho nm) i
+    | _ => False
+    end.
+  Proof.
+    intros Hlo Hlh Hhw. unfold mk_aff. cbn [size]. split; [reflexivity|]. intros i Hi.
+    assert (Sl : forall a b, 0 <= a -> a <= b -> b <= w -> forall j, 0 <= j ->
+                 Z.testbit (Z.shiftl (wrap (b - a) (ev (ESlice (EId nm w rg tm) a b))) a) j = (a <=? j) && (j <? b) && Z.testbit (rho nm) j).
+    { intros a b Ha Hab Hbw j Hj. rewrite testbit_slot by lia. replace (a + (b - a)) with b by lia.
+      destruct ((a <=? j) && (j <? b)) eqn:C; [|reflexivity]. apply andb_true_iff in C as [C1 C2]. apply Z.leb_le in C1. apply Z.ltb_lt in C2.
+      cbn [andb]. simpl. unfold wrap. rewrite Z.mod_pow2_bits_low by lia. rewrite Z.shiftr_spec by lia. replace (j - a + a) with j by lia.
+      rewrite Z.mod_pow2_bits_low by lia. reflexivity. }
+    assert (Sr : Z.testbit (Z.shiftl (wrap (hi - lo) (ev src)) lo) i = (lo <=? i) && (i <? hi) && Z.testbit (ev src) (i - lo))
+      by (rewrite testbit_slot by lia; replace (lo + (hi - lo)) with hi by lia; reflexivity).
+    destruct (Z.eqb_spec lo 0) as [L0|L0]; destruct (Z.ltb_spec hi w) as [Hw|Hw]; cbn [app]; rewrite eval_compose; cbn [map fold_left]; unfold slot_val, slot_e, slot_lo, slot_hi; cbn [fst snd];
+      rewrite ?Z.lor_0_l, ?Z.lor_spec, ?Sr, ?(Sl 0 lo), ?(Sl hi w) by lia;
+      destruct (Z_lt_le_dec i lo), (Z_lt_le_dec i hi), (Z_lt_le_dec i w);
+      repeat match goal with
+             | |- context [?a <=? ?b] => first [replace (a <=? b) with true by (symmetry; apply Z.leb_le; lia) | replace (a <=? b) with false by (symmetry; apply Z.leb_gt; lia)]
+             | |- context [?a <? ?b] => first [replace (a <? b) with true by (symmetry; apply Z.ltb_lt; lia) | replace (a <? b) with false by (symmetry; apply Z.ltb_ge; lia)]
+             end; cbn [andb orb]; rewrite ?orb_false_r, ?orb_false_l; try reflexivity; try lia.
+  Qed.
+End WriteBack.
